@@ -605,7 +605,9 @@ def runtime_cfg(scn, facts, lookups="all", shared_names=False):
     return {"id": scn["id"], "comps": comps, "regorder": scn["regorder"], "names": rank, "config": config_yaml(scn),
             "loaderFail": scn["loaderFail"], "lookups": lk, "dup": scn.get("dup", []),
             # the factory's registry calls are traced in two scenarios out of three (the third runs without the wrapper)
-            "trace": scn.get("trace", scn["id"] % 3 != 0)}
+            "trace": scn.get("trace", scn["id"] % 3 != 0),
+            # one scenario in five is started twice on the same instances (the second start must look like the first)
+            "twice": scn.get("twice", scn["id"] % 5 == 4)}
 
 
 # ------------------------------------------------------------------------------------------------
